@@ -21,15 +21,22 @@ import (
 // Compared with the scheduled tier the alphabet is broad (every script of
 // length <= 2 over SyncOps) and the granularity coarse.
 
-// SyncOps is the operation alphabet (table t holds (1,1,1) (2,2,2) (4,4,4)).
+// SyncOps is the operation alphabet (table t holds (1,1,1) (2,2,2) (4,4,4); table w, with a
+// composite unique index (a,b), holds (6,"",z) (7,"",y) (5,"","")).
 var SyncOps = []Op{
 	L("t", 0, "1"), L("t", 0, "3"),
 	S("t", 0, "", "", 1, 0), S("t", 0, "2", "5", 1, 0), S("t", 0, "", "", -1, 1), S("t", 1, "2", "4", 1, 0),
 	I("t", "3", "3", "3"), I("t", "1", "9", "9"), I("t", "5", "5", "2"),
 	U("t", "1", "1", "9", "1"), U("t", "2", "3", "2", "2"), U("t", "4", "4", "4", "8"),
 	D("t", "1"), D("t", "4"),
+	I("w", "8", "", "y"), I("w", "9", "", ""), U("w", "6", "6", "", "y"),
+	I("lw", "2", "Ab"), I("lw", "3", ""),
 	A(),
 }
+
+// syncInit is the initial content for the synchronous tier.
+var syncInit = map[string][]Row{"t": t3["t"], "w": {{"6", "", "z"}, {"7", "", "y"}, {"5", "", ""}},
+	"lw": {{"1", "aB"}, {"4", ""}}}
 
 // SyncScripts returns every script of length 1..maxLen over SyncOps (an
 // explicit abort only as the last operation). maxLen == -2 is the quick-tier
@@ -70,7 +77,7 @@ func SyncScripts(maxLen int) [][]Op {
 
 // RunSyncPair executes one interleaving (chosen through ch) of scripts a and b.
 func RunSyncPair(a, b []Op, or Oracles, ch *explore.Chooser) (string, *sched.Failure) {
-	sc := &Scenario{Name: "sync", Init: t3, Clients: [][]Tran{{upd(a...)}, {upd(b...)}}}
+	sc := &Scenario{Name: "sync", Init: syncInit, Clients: [][]Tran{{upd(a...)}, {upd(b...)}}}
 	x := &exec{sc: sc, or: or, sync: true}
 	zeros := []int{0, 0, 0, 0, 0, 0, 0, 0}
 	vrand.Override = func(n int) int { return ch.Choose(n, zeros[:n], "coin") }
@@ -109,14 +116,18 @@ func RunSyncPair(a, b []Op, or Oracles, ch *explore.Chooser) (string, *sched.Fai
 	finish := func(i int) {
 		tr := trs[i]
 		if !tr.Aborted && !tr.ExplAbort {
-			tr.Complete = db19.VerifSyncComplete(x.db, uts[i])
+			if e := try(func() { tr.Complete = db19.VerifSyncComplete(x.db, uts[i]) }); e != nil {
+				// in the real pipeline this is the checker / merger goroutine dying (log.Fatal)
+				x.failf("completing transaction %s panicked: %v", tr, e)
+				tr.Complete = "panic"
+			}
 			tr.DoneStep = x.syncStep
 		}
 		tr.Start, tr.End = uts[i].VerifStartEnd()
 		tr.HasUpdates = uts[i].VerifHasUpdates()
 		done[i] = true
 	}
-	for !done[0] || !done[1] {
+	for (!done[0] || !done[1]) && x.fail == nil {
 		i := 0
 		switch {
 		case done[0]:
